@@ -265,3 +265,25 @@ package casket
 //@   ensures [every_listed_instance_once] forall(k, 0, len(instances), ran(instances[k]) == old(ran(instances[k])) + 1)
 //@   ensures [lock_balance] held(instancesMu) == old(held(instancesMu))
 //@   loop 1 invariant 0 <= #i && #i <= len(instances) && forall(k, 0, #i, ran(instances[k]) == old(ran(instances[k])) + 1) && forall(k, #i, len(instances), ran(instances[k]) == old(ran(instances[k])))
+
+//@ unit shutdown_once props=C16 filter=`casket\.executeShutdownCallbacks$`
+//@ // "exactly once however many signals arrive (repeated, concurrent)": interleavings are outside what contracts on
+//@ // sequential code decide, so the guarantee is delegated to the primitive that gives it - the shutdown event and the
+//@ // instances' callbacks run ONLY inside the function handed to the process-wide sync.Once, never directly from
+//@ // executeShutdownCallbacks (a hand-made "already done" flag tested before and set after would admit a second run).
+//@ ghost onceCalls int
+//@ ghost directRuns int
+//@ extern (*sync.Once).Do
+//@   modifies ghost:onceCalls
+//@   ensures onceCalls == old(onceCalls) + 1
+//@ func allShutdownCallbacks
+//@   watch
+//@   modifies ghost:directRuns
+//@   ensures directRuns == old(directRuns) + 1
+//@ func EmitEvent
+//@   watch
+//@   modifies ghost:directRuns
+//@   ensures directRuns == old(directRuns) + 1
+//@ func executeShutdownCallbacks
+//@   modifies ghost:onceCalls, ghost:directRuns
+//@   ensures [callbacks_run_only_inside_the_once] onceCalls == old(onceCalls) + 1 && directRuns == old(directRuns)
